@@ -154,7 +154,7 @@ def java_cmd(xmx="1g", deque=False, tiered=True):
     return c + ["-cp", JAR, "tlc2.TLC"]
 
 
-_balanced_open = re.compile(r'<<\s*"(VERDICT|REPLAY|TRACE-NOT-CONSUMED|INFO)"')
+_balanced_open = re.compile(r'<<\s*"(VERDICT|REPLAY|TRACE-NOT-CONSUMED|INFO|PROGRAM)"')
 
 
 def _norm(t):
@@ -195,7 +195,7 @@ def collect_tuples(text):
                 cur = None
     if cur is not None:
         raise ToolError("unterminated tuple in TLC output: " + cur[:200])
-    raw = len(re.findall(r'<<\s*"(?:VERDICT|REPLAY|TRACE-NOT-CONSUMED|INFO)"', text))
+    raw = len(re.findall(r'<<\s*"(?:VERDICT|REPLAY|TRACE-NOT-CONSUMED|INFO|PROGRAM)"', text))
     if raw != len(out):
         raise ToolError(f"TLC output: {raw} tagged tuples printed but {len(out)} re-assembled")
     return out
